@@ -488,11 +488,24 @@ def jac_oracle(case):
     fd = (np.asarray(F(U + h * V)) - np.asarray(F(U - h * V))) / (2 * h)
     if not np.allclose(np.asarray(Jv), fd, rtol=1e-5, atol=1e-5):
         return {"u": G.enc(u), "v": G.enc(v), "jvp": G.enc(np.asarray(Jv)), "finite_difference": G.enc(fd)}
+    import scico
+    from scico import linop
+
     Gm = F.vjp(U, conjugate=True)[1]
     lhs = float(np.real(np.sum(np.conj(np.asarray(W)) * np.asarray(Jv))))
-    rhs = float(np.real(np.sum(np.conj(np.asarray(Gm(W))) * np.asarray(V))))
-    if abs(lhs - rhs) > 1e-8 * (1 + abs(lhs)):
-        return {"u": G.enc(u), "v": G.enc(v), "w": G.enc(w), "Re<w,Jv>": lhs, "Re<vjp(w),v>": rhs}
+    Jop = linop.jacobian(F, U, include_eval=bool(case.get("include_eval")))
+    ja, je = Jop.adj(W), Jop(V)
+    ja = ja.arrays[-1] if hasattr(ja, "arrays") else ja
+    je = je.arrays[-1] if hasattr(je, "arrays") else je
+    for name, gw in (("vjp(w)", Gm(W)), ("cvjp(w)", scico.cvjp(F, U)[1](W)[0]), ("jacobian.adj(w)", ja)):
+        gw = np.asarray(gw)
+        if gw.shape != np.asarray(V).shape:
+            return {"u": G.enc(u), "w": G.enc(w), name + ".shape": list(gw.shape), "expected": list(np.asarray(V).shape)}
+        rhs = float(np.real(np.sum(np.conj(gw) * np.asarray(V))))
+        if abs(lhs - rhs) > 1e-8 * (1 + abs(lhs)):
+            return {"u": G.enc(u), "v": G.enc(v), "w": G.enc(w), "Re<w,Jv>": lhs, f"Re<{name},v>": rhs}
+    if np.asarray(je).shape != fd.shape or not np.allclose(np.asarray(je), fd, rtol=1e-5, atol=1e-5):
+        return {"u": G.enc(u), "v": G.enc(v), "jacobian(v)": G.enc(np.asarray(je)), "finite_difference": G.enc(fd)}
     return None
 
 
@@ -912,6 +925,123 @@ def stream_heap(ctx, model):
 # scico.grad with argnums / has_aux, jacrev, linear_adjoint
 
 
+def _api_fun(case):
+    import jax.numpy as jnp
+
+    cplx = case["cplx"]
+    dt = np.complex128 if cplx else np.float64
+    n1, n2 = case["sizes"]
+    m = case["tree"]["op"]["m"]
+    M = G.dec(case["tree"]["op"]["M"], (m, n1 + n2), cplx)
+    y = G.dec(case["tree"]["y"], (m,), cplx)
+    Aj, Bj, yj = jnp.asarray(M[:, :n1], dtype=dt), jnp.asarray(M[:, n1:], dtype=dt), jnp.asarray(y, dtype=dt)
+
+    def fun(p, q):
+        return jnp.sum(jnp.abs(Aj @ p + Bj @ q - yj) ** 2)
+
+    return fun, dt
+
+
+def api_oracle(case):
+    """scico.grad / value_and_grad with argnums and has_aux: Re<g,d> vs finite differences of fun"""
+    import scico
+    import scico.numpy as snp
+
+    common.setup_scico()
+    if "sizes" not in case or case.get("tag") != "api":
+        return None
+    fun, dt = _api_fun(case)
+    cplx = case["cplx"]
+    n1, n2 = case["sizes"]
+    x = G.dec(case["x"], None, cplx)
+    pa, pb = snp.array(np.asarray(x[:n1], dtype=dt)), snp.array(np.asarray(x[n1:], dtype=dt))
+
+    def fun_aux(p, q):
+        return fun(p, q), {"aux": p}
+
+    variants = {
+        "grad(argnums=(0,1))": lambda: scico.grad(fun, argnums=(0, 1))(pa, pb),
+        "grad(has_aux)": lambda: scico.grad(fun_aux, argnums=(0, 1), has_aux=True)(pa, pb)[0],
+        "value_and_grad(has_aux)": lambda: scico.value_and_grad(fun_aux, argnums=(0, 1), has_aux=True)(pa, pb)[1],
+        "value_and_grad": lambda: scico.value_and_grad(fun, argnums=(0, 1))(pa, pb)[1],
+    }
+    rr = np.random.Generator(np.random.PCG64(7))
+    for name, call in variants.items():
+        g0, g1 = (np.asarray(z) for z in call())
+        for _ in range(3):
+            d0, d1 = G.dy(rr, (n1,), cplx), G.dy(rr, (n2,), cplx)
+            D0, D1 = snp.array(np.asarray(d0, dtype=dt)), snp.array(np.asarray(d1, dtype=dt))
+            h = 2.0**-9
+
+            def Dq(hh):
+                return (float(fun(pa + hh * D0, pb + hh * D1)) - float(fun(pa - hh * D0, pb - hh * D1))) / (2 * hh)
+
+            fd = (4 * Dq(h / 2) - Dq(h)) / 3
+            ri = float(np.real(np.sum(np.conj(g0) * d0) + np.sum(np.conj(g1) * d1)))
+            if abs(fd - ri) > 1e-5 * (1 + abs(fd)):
+                return {"api": name, "x": case["x"], "d": G.enc(np.concatenate([d0, d1])), "re_inner_grad_d": ri, "finite_difference": fd}
+    return None
+
+
+def jacrev_oracle(case):
+    """row k of scico.jacrev(f) must be the gradient of the k-th (real) output"""
+    import jax.numpy as jnp
+    import scico
+    import scico.numpy as snp
+
+    common.setup_scico()
+    cplx, n = case["cplx"], case["n"]
+    dt = np.complex128 if cplx else np.float64
+    m = case["tree"]["op"]["m"]
+    A = jnp.asarray(G.dec(case["tree"]["op"]["M"], (m, n), cplx), dtype=dt)
+    y = jnp.asarray(G.dec(case["tree"]["y"], (m,), cplx), dtype=dt)
+
+    def fvec(p):
+        return jnp.abs(A @ p - y) ** 2
+
+    x = snp.array(np.asarray(G.dec(case["x"], (n,), cplx), dtype=dt))
+    Jr = np.asarray(scico.jacrev(fvec)(x))
+    k = case["row"]
+    rr = np.random.Generator(np.random.PCG64(11))
+    for _ in range(4):
+        d = G.dy(rr, (n,), cplx)
+        Dd = snp.array(np.asarray(d, dtype=dt))
+        fd = fd_directional(lambda z: fvec(z)[k], x, Dd)
+        ri = float(np.real(np.sum(np.conj(Jr[k]) * d)))
+        if abs(fd - ri) > 1e-5 * (1 + abs(fd)):
+            return {"row": k, "x": case["x"], "d": G.enc(d), "re_inner_row_d": ri, "finite_difference": fd}
+    return None
+
+
+def linadj_oracle(case):
+    """<adj(y), x> = <y, f(x)> on the declared argument type"""
+    import jax.numpy as jnp
+    import scico
+    import scico.numpy as snp
+
+    common.setup_scico()
+    branch = case["branch"]
+    cp, co = (branch == 0), (branch in (0, 1))
+    M = G.dec(case["M"], None, True)
+    yv = G.dec(case["y"], None, True)
+    m = yv.size
+    n = M.size // m
+    M = M.reshape(m, n)
+    Mj = jnp.asarray(M if co else M.real, dtype=np.complex128 if co else np.float64)
+    rr = np.random.Generator(np.random.PCG64(5))
+    x = G.dy(rr, (n,), cp)
+    xin = snp.array(np.asarray(x, dtype=np.complex128 if cp else np.float64))
+    adj = scico.linear_adjoint(lambda z: Mj @ z, xin)
+    ay = np.asarray(adj(snp.array(np.asarray(yv if co else yv.real, dtype=np.complex128 if co else np.float64)))[0])
+    lhs = np.sum(np.conj(ay) * np.asarray(xin))
+    rhs = np.sum(np.conj(yv if co else yv.real) * np.asarray(Mj @ xin))
+    if not cp:
+        lhs, rhs = np.real(lhs), np.real(rhs)  # real argument space: real inner product
+    if abs(lhs - rhs) > 1e-9 * (1 + abs(rhs)):
+        return {"branch": ["C->C", "R->C", "R->R"][branch], "x": G.enc(x), "y": case["y"], "<adj y,x>": complex(lhs).real, "<y,f x>": complex(rhs).real}
+    return None
+
+
 def stream_autograd_api(ctx, model):
     import jax.numpy as jnp
     import scico
@@ -958,7 +1088,7 @@ def stream_autograd_api(ctx, model):
             ("api.value_and_grad.has_aux", np.concatenate([np.asarray(z).ravel() for z in gva]), mg),
             ("api.value_and_grad.argnums0", np.asarray(gv0).ravel(), mg[:n1]),
         ):
-            _cmp_vec(ctx, name, case, impl, np.asarray(want))
+            _cmp_vec(ctx, name, case, impl, np.asarray(want), api_oracle)
         if not (common.close(float(vv), common.b2f(got["eval"]), TOLK) and common.close(float(vv2), common.b2f(got["eval"]), TOLK)):
             ctx.disagree("api.value_and_grad.value", case, [float(vv), float(vv2)], common.b2f(got["eval"]))
         # jacrev of a real-vector-valued function: row k = gradient of the k-th output
@@ -972,7 +1102,7 @@ def stream_autograd_api(ctx, model):
             tk = {"k": "sqL2Loss", "s": 1.0, "op": {"kind": "matrix", "m": m, "M": G.enc(A)}, "y": G.enc(y), "w": wk}
             gk = G.from_cv(model.call("fn", n=n1, x=G.cv(a), f=G.to_model(tk, n1))["grad"])
             ctx.count("api:jacrev-rows")
-            _cmp_vec(ctx, "api.jacrev.row", {"tag": "jacrev", "tree": tk, "n": n1, "cplx": cplx, "x": G.enc(a), "row": kk}, Jr[kk], gk)
+            _cmp_vec(ctx, "api.jacrev.row", {"tag": "jacrev", "tree": tk, "n": n1, "cplx": cplx, "x": G.enc(a), "row": kk}, Jr[kk], gk, jacrev_oracle)
     # linear_adjoint: three dtype branches
     for _ in range(ctx.n(15, 100)):
         n, m = int(rng.integers(1, 4)), int(rng.integers(1, 4))
@@ -989,7 +1119,7 @@ def stream_autograd_api(ctx, model):
             got = got.real  # real primal: JAX returns the real part of the cotangent
         ctx.case({"tag": "linadj", "branch": ["C->C", "R->C", "R->R"][branch], "n": n, "m": m}, ("linadj", branch, n, m))
         ctx.count("linadj:" + ["C->C", "R->C", "R->R"][branch])
-        _cmp_vec(ctx, "linadj", {"branch": branch, "M": G.enc(M), "y": G.enc(yv)}, impl, np.asarray(got, dtype=np.complex128))
+        _cmp_vec(ctx, "linadj", {"branch": branch, "M": G.enc(M), "y": G.enc(yv)}, impl, np.asarray(got, dtype=np.complex128), linadj_oracle)
 
 
 # --------------------------------------------------------------------------------------------
@@ -1007,23 +1137,32 @@ def run_corpus(ctx, model):
             _fn_case(ctx, model, c["tree"], c["n"], c["cplx"], G.dec(c["x"]), sizes=c.get("sizes"), tag="corpus")
 
 
+def _guard(ctx, model, stream):
+    """an exception raised by the real code where the model computes a value is a disagreement
+    (the rest of that stream is skipped); harness problems stay Infra"""
+    try:
+        stream(ctx, model)
+    except (common.Infra, ModelErr):
+        raise
+    except Exception as e:  # noqa: BLE001
+        import traceback
+
+        tb = traceback.extract_tb(e.__traceback__)
+        where = [f"{fr.filename.split('/')[-1]}:{fr.lineno}" for fr in tb][-4:]
+        in_scico = any("/scico/" in fr.filename or "/jax/" in fr.filename for fr in tb)
+        if not in_scico:
+            raise common.Infra(f"{stream.__name__}: {e!r} at {where}") from e
+        ctx.disagree(stream.__name__ + ".raised", {"stream": stream.__name__, "where": where}, repr(e)[:300], "model: a value, no error")
+
+
 def correspond(ctx, model):
     import warnings
 
     common.setup_scico()
     warnings.filterwarnings("ignore", message="Casting complex values to real")
-    run_corpus(ctx, model)
-    stream_boundary(ctx, model)
-    stream_fn(ctx, model)
-    stream_blocks(ctx, model)
-    stream_single(ctx, model)
-    stream_real_arg(ctx, model)
-    stream_div_reject(ctx, model)
-    stream_jac(ctx, model)
-    stream_function(ctx, model)
-    stream_hess(ctx, model)
-    stream_heap(ctx, model)
-    stream_autograd_api(ctx, model)
+    for stream in (run_corpus, stream_boundary, stream_fn, stream_blocks, stream_single, stream_real_arg, stream_div_reject,
+                   stream_jac, stream_function, stream_hess, stream_heap, stream_autograd_api):
+        _guard(ctx, model, stream)
 
 
 HUBER0 = "huber-nonsep-grad-at-zero"
@@ -1165,8 +1304,14 @@ def replay(ctx, model, case):
     c = case.get("case", case)
     op = case.get("op", "")
     r = None
-    if "tree" in c and "x" in c and op.startswith(("fn", "api")):
+    if c.get("tag") == "api":
+        r = api_oracle(c)
+    elif "tree" in c and "x" in c and op.startswith("fn"):
         r = fn_oracle(ctx.seed)(c)
+    elif op.startswith("api.jacrev"):
+        r = jacrev_oracle(c)
+    elif op.startswith("linadj"):
+        r = linadj_oracle(c)
     elif op.startswith("jac"):
         r = jac_oracle(c)
     elif op.startswith("hess"):
